@@ -26,6 +26,8 @@ from . import smt
 from .explore import EngineGap, PathCtx, Stats, Unwound, explore
 
 VERIF = os.path.dirname(os.path.dirname(os.path.abspath(__file__)))
+# experiments against scratch worktrees (VERIF_REPO) must not overwrite the evidence of the unchanged tree
+OUT = os.environ.get("VERIF_OUT") or VERIF
 aten = torch.ops.aten
 
 # --------------------------------------------------------------------------
@@ -1079,7 +1081,7 @@ def run_check(prop, cases, tier, meta, seed=0, only=None, jobs=None):
                                 wall_s=rep["wall_s"], **rep["sample"]))
 
     # ---- output ------------------------------------------------------
-    rdir = os.path.join(VERIF, "replays", prop)
+    rdir = os.path.join(OUT, "replays", prop)
     os.makedirs(rdir, exist_ok=True)
     exit_code = 0
     printed_known = set()
@@ -1155,8 +1157,8 @@ def run_check(prop, cases, tier, meta, seed=0, only=None, jobs=None):
     ev = dict(property_id=prop, tier=tier, seed=int(seed), level=meta.get("level", "model_checking"), coverage=coverage,
               assumptions=meta.get("assumptions", []) + COMMON_ASSUMPTIONS, wall_s=round(wall, 2),
               violations=len(viol_new))
-    os.makedirs(os.path.join(VERIF, "evidence"), exist_ok=True)
-    with open(os.path.join(VERIF, "evidence", prop + ".json"), "w") as f:
+    os.makedirs(os.path.join(OUT, "evidence"), exist_ok=True)
+    with open(os.path.join(OUT, "evidence", prop + ".json"), "w") as f:
         json.dump(ev, f, indent=1, default=str)
     print("%s %s: cases=%d paths=%d goals=%d unsat=%d sat=%d unknown=%d unwound=%d replays=%d known=%d new=%d wall=%.1fs exit=%d"
           % (prop, tier, len(cases), tot["paths"], tot["goals"], tot["unsat"], tot["sat"], tot["unknown"], tot["unwound"],
